@@ -449,7 +449,8 @@ TEXT = ("Held on every evaluation observed: the complete single-node grid (all 1
         "every in-place operator x target state x operand kind: ~60 000 cases, exhaustive over the stated grid) in "
         "the compiled build and a 25% sample in the pure build, plus ~15 000 (quick) / ~1.7 million (thorough) "
         "evaluations of random trees re-evaluated after operand changes. The grid is exhaustive over its finite "
-        "scope; arbitrary depth and all numeric inputs are sampled.")
+        "scope; arbitrary depth and all numeric inputs are sampled."
+        ' Plus a ternary grid: two nested binary nodes, both groupings, 10 operator pairs x 13^3 operand triples including arrays of different dtype/shape, lists, tuples and strings (operands must stay unmodified).')
 NOTE = ("Trusted: Python's own operators as the mirror; canonical by-value-and-type comparison (sign of zero not "
         "compared, counted); caps on integer exponents/shifts.")
 TECHNIQUE = "runtime monitoring: reference-model oracle per expression node (same Python operator on the operand values), exhaustive operator x form x operand grid + random trees re-evaluated after operand changes"
